@@ -144,7 +144,7 @@ def fin_obs(rng, ints):
     return ob("in", x=rand_elem(rng, ints))
 
 
-def inf_obs(rng, lazy):
+def inf_obs(rng, lazy, big_ix=False):
     r = rng.random()
     if r < 0.15 and not lazy:
         return ob(rng.choice(["len", "truthy"]))
@@ -152,6 +152,9 @@ def inf_obs(rng, lazy):
         return ob(rng.choice(["first", "second"]))
     if r < 0.5:
         return ob("index", ixn(rng.randint(0, 12)))
+    if r < 0.56 and big_ix:
+        # repeat / cycle answer any index in O(1): machine-word extremes and their neighbours
+        return ob("index", ixn(rng.choice([2 ** 63 - 1, 2 ** 63 - 2, 2 ** 62, 2 ** 62 + 1, 2 ** 32, 2 ** 31 - 1, 10 ** 18 + 7])))
     if r < 0.75:
         return ob("slice", OMIT if rng.random() < 0.3 else ixn(rng.randint(0, 8)), ixn(rng.randint(0, 12)))
     if r < 0.85:
@@ -171,7 +174,7 @@ def drive(tier, seed):
         inf = maybe_infinite(ctor)
         k = rng.choice([0, 0, 0, 1, 2, 3, 5, 9])
         lazy = ctor["c"] in ("map", "zip")
-        obs = [inf_obs(rng, lazy) if inf else fin_obs(rng, ints) for _ in range(GROUP - 1)]
+        obs = [inf_obs(rng, lazy, ctor["c"] in ("repeat", "cycle")) if inf else fin_obs(rng, ints) for _ in range(GROUP - 1)]
         # in one walk out of six every integer argument of an observation is held in big representation
         how = "bigrep" if len(walks) % 6 == 5 else "lit"
         walks.append({"decl": S.decl_steps(ctor, k), "steps": [S.render_ob(o, how=how) for o in obs]})
